@@ -3,7 +3,7 @@
    documented parts; X-theorems give FastStochastic on the extremes of exactly the last min(t,p) prices. RateOfChange,
    EfficiencyRatio and MoneyFlowIndex are tied by the exact-rational instance (T2) — partial. *)
 From Coq Require Import Reals.
-From TA Require Import Base Model XR Proofs.Ring Proofs.Wiring Proofs.Osc Proofs.XFast Proofs.XRoc.
+From TA Require Import Base Model XR Proofs.Ring Proofs.Wiring Proofs.Osc Proofs.XFast Proofs.XRoc Proofs.XEr.
 
 (* RSI = 100*U/(U+D), U and D the EMA(n) of gains and losses, both seeded 0.1 (so the first output is 50) *)
 Theorem C03_rsi : forall (F : Type) (O : Ops F) xs p (up down : @Ema F) prev is_new,
@@ -58,3 +58,14 @@ Proof. exact roc_refines. Qed.
 Theorem C03_roc_value : forall p h x, roc_ref p h x <> 0%R ->
   roc_spec p h x = Fin ((x - roc_ref p h x) / roc_ref p h x * 100)%R /\ roc_ref p h x = hd x (lastn p h).
 Proof. intros p h x H. split; [apply roc_spec_value; exact H|reflexivity]. Qed.
+
+(* EfficiencyRatio = |x_t - x_{t-n}| / sum |consecutive differences| over those n steps: the prices entering the ratio are the
+   last n+1 prices of the history (fewer while warming up: the path then starts at the first price; the very first output is
+   computed on the path 0 -> x, hence 1) — exact arithmetic, every period, every finite stream *)
+Theorem C03_er : forall p s (xs : list R), er_new XROps p = Ok s ->
+  er_outs s (map Fin xs) = er_spec_stream (N.to_nat p) [] xs.
+Proof. exact er_refines. Qed.
+Theorem C03_er_spec : forall p h x,
+  er_spec p h x = div XROps (Fin (Rabs (hd 0%R (er_path p h x) - x))) (Fin (plen (er_path p h x))) /\
+  er_path p h x = match h with [] => [0%R; x] | _ => lastn (S p) (h ++ [x]) end.
+Proof. intros. split; reflexivity. Qed.
